@@ -26,9 +26,14 @@ def run_tlc(N, PS, Q, workdir, dump=True):
     if dump:
         cmd += ["-dump", "dot,actionlabels", os.path.join(workdir, "graph.dot")]
     cmd += ["-config", "PoolProto.cfg", "PoolProto.tla"]
-    r = subprocess.run(cmd, cwd=workdir, capture_output=True, text=True, timeout=3600)
-    out = r.stdout + r.stderr
+    try:
+        r = subprocess.run(cmd, cwd=workdir, capture_output=True, text=True, timeout=int(os.environ.get("VERIF_TLC_TIMEOUT", "1500")))
+        out = r.stdout + r.stderr
+    except subprocess.TimeoutExpired as e:
+        out = "TLC-INCOMPLETE (timeout)\n" + str(e.stdout or "")[-500:]
     ok = "Model checking completed. No error has been found." in out
+    if not ok and "Error:" not in out and "is violated" not in out:
+        out = "TLC-INCOMPLETE\n" + out[-800:]
     m = re.search(r"(\d+) states generated, (\d+) distinct states found", out)
     return ok, (int(m.group(1)), int(m.group(2))) if m else (0, 0), out, os.path.join(workdir, "graph.dot")
 
